@@ -19,8 +19,9 @@ macro_rules! l2_all {
         l2i!($tc, $shape, $second, PCompact, compact, $unw_cmp);
     };
 }
-l2_all!(q, t, V_STRUCT_NEST, V_STRUCT_FLAT, 5, 7);
-l2_all!(q, t, V_STRUCT_FLAT, V_I16, 5, 7);
+l2_all!(t, t, V_STRUCT_NEST, V_STRUCT_FLAT, 5, 7);
+l2_all!(t, t, V_STRUCT_FLAT, V_I16, 5, 7);
+l2_all!(t, t, V_STRUCT_NEST, V_I8, 5, 7);
 l2_all!(t, t, V_LIST_STRUCT, V_STRUCT_FLAT, 5, 7);
 l2_all!(t, t, V_MAP_I8_BIN, V_I32, 5, 7);
 l2_all!(t, t, V_LIST_I32_2, V_LIST_BOOL_2, 5, 7);
@@ -29,4 +30,4 @@ l2_all!(t, t, V_STRUCT_EMPTY, V_MAP_EMPTY, 5, 7);
 l2_all!(t, t, V_LIST_BIN_1, V_BINARY2, 5, 7);
 l2_all!(t, t, V_DOUBLE, V_UUID, 17, 17);
 // the nested-struct sibling shape alone, compact, quick (smallest form of the field-id-stack property)
-l2i!(q, V_STRUCT_NEST, V_I8, PCompact, compact, 7);
+
